@@ -139,7 +139,8 @@ def tlc_simulate(module, cfg, workdir, *, num, depth, seed, timeout=300):
     """Random walks of the specification; the Emit invariant prints the history of every state beyond
     DEPTH, the last print of a walk (the longest extension) is the walk's behaviour."""
     base = open(cfg).read()
-    base = re.sub(r"DEPTH\s*=\s*\d+", "DEPTH = %d" % (depth - 1), base)
+    # walks of models whose environment runs out of budget end early: print every extension beyond a quarter of the depth
+    base = re.sub(r"DEPTH\s*=\s*\d+", "DEPTH = %d" % max(3, depth // 4), base)
     tmp = os.path.join(workdir, "sim-" + os.path.basename(cfg))
     open(tmp, "w").write(base)
     rc, out, wall = tlc_run(module, tmp, workdir, workers=1, timeout=timeout,
